@@ -30,7 +30,7 @@ package diam
 //@   modifies h.*
 //@   ensures short: len(data) < 20 ==> err != nil
 //@   ensures total: len(data) >= 20 ==> err == nil
-//@   ensures [C02] rfc_layout: err == nil ==> hdr_wire(h, data)
+//@   ensures [C01 C02] rfc_layout: err == nil ==> hdr_wire(h, data)
 //@ end
 //@
 //@ func DecodeHeader(data) (p, err)
@@ -38,14 +38,14 @@ package diam
 //@   modifies
 //@   ensures short: len(data) < 20 ==> err != nil
 //@   ensures total: len(data) >= 20 ==> err == nil
-//@   ensures [C02] rfc_layout: err == nil ==> p != nil && fresh(p) && hdr_wire(p, data)
+//@   ensures [C01 C02] rfc_layout: err == nil ==> p != nil && fresh(p) && hdr_wire(p, data)
 //@ end
 //@
 //@ func (*Header).SerializeTo(h, b)
 //@   property C01 C02 C03
 //@   requires h != nil && len(b) >= 20
 //@   modifies b[0:20]
-//@   ensures [C02] rfc_layout: b[0] == h.Version && be24(b, 1) == h.MessageLength & 0xffffff && b[4] == h.CommandFlags &&
+//@   ensures [C01 C02] rfc_layout: b[0] == h.Version && be24(b, 1) == h.MessageLength & 0xffffff && b[4] == h.CommandFlags &&
 //@           be24(b, 5) == h.CommandCode & 0xffffff && be32(b, 8) == h.ApplicationID && be32(b, 12) == h.HopByHopID && be32(b, 16) == h.EndToEndID
 //@ end
 //@
@@ -53,7 +53,7 @@ package diam
 //@   property C01 C02 C03
 //@   requires h != nil
 //@   modifies
-//@   ensures [C02] rfc_layout: len(b) == 20 && fresh(b) && b[0] == h.Version && be24(b, 1) == h.MessageLength & 0xffffff && b[4] == h.CommandFlags &&
+//@   ensures [C01 C02] rfc_layout: len(b) == 20 && fresh(b) && b[0] == h.Version && be24(b, 1) == h.MessageLength & 0xffffff && b[4] == h.CommandFlags &&
 //@           be24(b, 5) == h.CommandCode & 0xffffff && be32(b, 8) == h.ApplicationID && be32(b, 12) == h.HopByHopID && be32(b, 16) == h.EndToEndID
 //@ end
 //@
@@ -86,12 +86,12 @@ package diam
 //@   requires a != nil && dictionary != nil && pwf(dictionary)
 //@   modifies a.*
 //@   ensures short: len(data) < 8 ==> err != nil
-//@   ensures [C02] hdr: err == nil ==> a.Code == be32(data, 0) && a.Flags == data[4] && a.Length == int(be24(data, 5))
+//@   ensures [C01 C02] hdr: err == nil ==> a.Code == be32(data, 0) && a.Flags == data[4] && a.Length == int(be24(data, 5))
 //@   ensures [C04] bounds: err == nil ==> hdrlen(a.Flags) <= a.Length && a.Length <= len(data)
-//@   ensures [C02] vendor: err == nil && a.Flags & 0x80 == 0x80 ==> a.VendorID == be32(data, 8)
+//@   ensures [C01 C02] vendor: err == nil && a.Flags & 0x80 == 0x80 ==> a.VendorID == be32(data, 8)
 //@   ensures data_ok: err == nil ==> a.Data != nil && valid(a.Data)
 //@   ensures [C04] cursor: err == nil && !typeis(a.Data, *GroupedAVP) ==> avplen(a) == pad4s(a.Length)
-//@   ensures [C04] payload: err == nil && !typeis(a.Data, *GroupedAVP) ==> forall i int :: 0 <= i && i < a.Length - hdrlen(a.Flags) ==> dbyte(a.Data, i) == data[hdrlen(a.Flags) + i]
+//@   ensures [C01 C04] payload: err == nil && !typeis(a.Data, *GroupedAVP) ==> forall i int :: 0 <= i && i < a.Length - hdrlen(a.Flags) ==> dbyte(a.Data, i) == data[hdrlen(a.Flags) + i]
 //@   ensures [C06] private: err == nil ==> !viewsInto(a.Data, data)
 //@ end
 //@
@@ -101,12 +101,12 @@ package diam
 //@   modifies
 //@   ensures nonnil: a != nil && fresh(a)
 //@   ensures short: len(data) < 8 ==> err != nil
-//@   ensures [C02] hdr: err == nil ==> a.Code == be32(data, 0) && a.Flags == data[4] && a.Length == int(be24(data, 5))
+//@   ensures [C01 C02] hdr: err == nil ==> a.Code == be32(data, 0) && a.Flags == data[4] && a.Length == int(be24(data, 5))
 //@   ensures [C04] bounds: err == nil ==> hdrlen(a.Flags) <= a.Length && a.Length <= len(data)
-//@   ensures [C02] vendor: err == nil && a.Flags & 0x80 == 0x80 ==> a.VendorID == be32(data, 8)
+//@   ensures [C01 C02] vendor: err == nil && a.Flags & 0x80 == 0x80 ==> a.VendorID == be32(data, 8)
 //@   ensures data_ok: err == nil ==> a.Data != nil && valid(a.Data)
 //@   ensures [C04] cursor: err == nil && !typeis(a.Data, *GroupedAVP) ==> avplen(a) == pad4s(a.Length)
-//@   ensures [C04] payload: err == nil && !typeis(a.Data, *GroupedAVP) ==> forall i int :: 0 <= i && i < a.Length - hdrlen(a.Flags) ==> dbyte(a.Data, i) == data[hdrlen(a.Flags) + i]
+//@   ensures [C01 C04] payload: err == nil && !typeis(a.Data, *GroupedAVP) ==> forall i int :: 0 <= i && i < a.Length - hdrlen(a.Flags) ==> dbyte(a.Data, i) == data[hdrlen(a.Flags) + i]
 //@   ensures [C06] private: err == nil ==> !viewsInto(a.Data, data)
 //@ end
 //@
@@ -164,11 +164,11 @@ package diam
 //@   requires separate: a.Data != nil ==> !viewsInto(a.Data, b)
 //@   modifies b[0:avplen(a)]
 //@   ensures nodata: a.Data == nil <==> err != nil
-//@   ensures [C02] code: err == nil ==> be32(b, 0) == a.Code
-//@   ensures [C02] flags: err == nil ==> b[4] == a.Flags
-//@   ensures [C02] length: err == nil ==> int(be24(b, 5)) == hdrlen(a.Flags) + old(dlen(a.Data))
-//@   ensures [C02] vendor: err == nil && a.Flags & 0x80 == 0x80 ==> be32(b, 8) == a.VendorID
-//@   ensures [C02 thorough] payload: err == nil && !typeis(a.Data, *GroupedAVP) ==> forall i int :: 0 <= i && i < dlen(a.Data) ==> b[hdrlen(a.Flags) + i] == old(dbyte(a.Data, i))
+//@   ensures [C01 C02] code: err == nil ==> be32(b, 0) == a.Code
+//@   ensures [C01 C02] flags: err == nil ==> b[4] == a.Flags
+//@   ensures [C01 C02] length: err == nil ==> int(be24(b, 5)) == hdrlen(a.Flags) + old(dlen(a.Data))
+//@   ensures [C01 C02] vendor: err == nil && a.Flags & 0x80 == 0x80 ==> be32(b, 8) == a.VendorID
+//@   ensures [C01 C02 thorough] payload: err == nil && !typeis(a.Data, *GroupedAVP) ==> forall i int :: 0 <= i && i < dlen(a.Data) ==> b[hdrlen(a.Flags) + i] == old(dbyte(a.Data, i))
 //@   ensures [C02 thorough] padding: err == nil ==> forall i int :: 0 <= i && i < dpad(a.Data) ==> b[hdrlen(a.Flags) + dlen(a.Data) + i] == 0
 //@   loop 0
 //@     modifies b[0:dpad(a.Data)]
@@ -654,4 +654,29 @@ package diam
 //@     invariant [C20] only_the_last_code: forall j int :: 0 <= j && j < len(avsOnPath) ==> avsOnPath[j] != nil && avsOnPath[j].Code == path[len(path)-1]
 //@     hint wfs.def(kids(avps[rangeindex+1]))
 //@   end
+//@ end
+//@
+//@ # ======================= C01: round-trip lemmas (lemmas_verif.go) =============
+//@ func lemmaHeaderRoundTrip(h) (p, err)
+//@   property C01
+//@   requires h != nil
+//@   modifies
+//@   ensures [C01] same_header_fields: err == nil && p != nil && p.Version == h.Version && p.CommandFlags == h.CommandFlags &&
+//@           p.ApplicationID == h.ApplicationID && p.HopByHopID == h.HopByHopID && p.EndToEndID == h.EndToEndID &&
+//@           p.MessageLength == h.MessageLength & 0xffffff && p.CommandCode == h.CommandCode & 0xffffff
+//@ end
+//@ func lemmaHeaderReserialise(data) (out)
+//@   property C01
+//@   modifies
+//@   ensures [C01] accepted_iff_twenty_bytes: out != nil <==> len(data) >= 20
+//@   ensures [C01] same_bytes: out != nil ==> len(out) == 20 && forall i int :: 0 <= i && i < 20 ==> out[i] == data[i]
+//@ end
+//@ func lemmaAVPRoundTrip(a, application, dictionary) (r, err)
+//@   property C01
+//@   requires a != nil && a.Data != nil && deepvalid(a.Data) && dlen(a.Data) >= 0 && dlen(a.Data) < (1<<24) - 12 && dictionary != nil && pwf(dictionary)
+//@   modifies
+//@   ensures [C01] same_avp_header: err == nil ==> r != nil && r.Code == a.Code && r.Flags == a.Flags && (a.Flags & 0x80 == 0x80 ==> r.VendorID == a.VendorID) &&
+//@           r.Length == hdrlen(a.Flags) + dlen(a.Data)
+//@   ensures [C01 thorough] same_payload: err == nil && !typeis(a.Data, *GroupedAVP) && !typeis(r.Data, *GroupedAVP) ==>
+//@           dlen(r.Data) <= pad4s(dlen(a.Data)) && forall i int :: 0 <= i && i < dlen(a.Data) ==> dbyte(r.Data, i) == dbyte(a.Data, i)
 //@ end
